@@ -376,3 +376,20 @@ def expand_atom(fn, atom: str, _cache={}) -> str:
     if not m:
         return atom
     return _re.sub(r"(?<![\w.])(" + "|".join(map(_re.escape, sorted(m, key=len, reverse=True))) + r")(?![\w(])", lambda mo: m[mo.group(1)], atom)
+
+
+def assert_facts(cfg, nid, _cache={}):
+    """Facts established by `assert` statements that dominate the node (on non-exceptional paths): the asserted
+    condition holds wherever execution continued past it (asserts enabled - the library's own tests run that way;
+    recorded as an assumption by the rules that use it)."""
+    import ast as _ast
+    key = id(cfg)
+    if key not in _cache:
+        _cache[key] = cfg.dominators(exc=False)
+    dom = _cache[key]
+    out = set()
+    for d in dom.get(nid, ()):
+        n = cfg.nodes[d]
+        if d != nid and n.kind == "stmt" and isinstance(n.ast, _ast.Assert):
+            out |= facts(n.ast.test, True)
+    return out
